@@ -24,6 +24,8 @@
 //	                                         cleanup finds the session alive without all its records / gone with some left
 //	session-cleanup:other-record-touched / owned-record-survived (no interleaving involved) / session-key-survived
 //	session:lost-after-leader-change / resurrected-after-leader-change / never-expires-after-leader-change   (lagging.go)
+//	session:restored-with-foreign-metadata / expired-before-its-own-timeout-after-leader-change /
+//	session:outlived-its-own-timeout-after-leader-change                                                   (multi.go)
 //	session:leader-close-blocked-by-expiring-session   (watchdog of the leader-change scenario, see closeLeader)
 //
 // The O-12 schedules are forced, not raced: the kv.Factory handed to the controller is wrapped, and the key iterator
@@ -725,6 +727,9 @@ func runScen(s scen, o *hx.Out, mu *sync.Mutex) {
 		case !inIds(server.VerifSessionIds(n.lc), id):
 			viol("session:lost-across-leader-change", fmt.Sprintf("session %d is in the DB but the new leader's session manager does not know it (it would never expire)", id))
 		}
+		if m, ok := server.VerifSessionInfo(n.lc)[id]; ok && (m.Timeout != T || m.Identity != "c") {
+			viol("session:restored-with-foreign-metadata", fmt.Sprintf("session %d was created with timeout %v identity %q, the new leader runs it with timeout %v identity %q", id, T, "c", m.Timeout, m.Identity))
+		}
 		v.mirror(viol)
 		arm := b0
 		if s.variant%2 == 0 {
@@ -964,6 +969,12 @@ func main() {
 		scens = append(scens, scen{"o12-close", 0, v + 5*rng.Intn(2)}, scen{"o12-expiry", 150 * time.Millisecond, v + 5*rng.Intn(2)})
 	}
 	scens = append(scens, scen{"close-during-expiry", 100 * time.Millisecond, 0})
+	// leader changes with four live sessions of different timeouts / identities (multi.go): both paths, with the last
+	// created (highest id) session being the longest (order 0) and the shortest (order 1), plus two seeded picks
+	for _, v := range []int{0, 1, 2, 3} { // path = v%2, order = v/2
+		scens = append(scens, scen{"multi-timeout", 0, v + 12*rng.Intn(8)})
+	}
+	scens = append(scens, scen{"multi-timeout", 0, rng.Intn(96)}, scen{"multi-timeout", 0, rng.Intn(96)})
 	// leader changes on a node whose DB is behind its log (see lagging.go): commit offset and rf from the variant
 	for i := 0; i < 12; i++ {
 		scens = append(scens, scen{"lagging-leader", hx.Pick(rng, []time.Duration{150, 200, 300}) * time.Millisecond, rng.Intn(100000)*1000 + i})
@@ -990,6 +1001,8 @@ func main() {
 			defer func() { <-sem }()
 			if s.name == "lagging-leader" {
 				runLagging(s, o, &mu)
+			} else if s.name == "multi-timeout" {
+				runMulti(s, o, &mu)
 			} else {
 				runScen(s, o, &mu)
 			}
